@@ -67,6 +67,10 @@ def parse_url(url: str) -> tuple:
     else:
         resource = "/"
 
+    if parsed.params:
+        # urlparse splits ";parameters" off the last path segment; they belong to the request target
+        resource += f";{parsed.params}"
+
     if parsed.query:
         resource += f"?{parsed.query}"
 
